@@ -69,6 +69,11 @@ SCENARIOS = {
     # connection; the shutdown leaves no worker thread behind
     'lazy_connect': dict(lazy=True, callers=[('read', 'm:p1'), ('read', 'm:p2'), ('change', 'm:p1')], user=True, user_after=1.0),
     'lazy_connect_same': dict(lazy=True, callers=[('read', 'm:p1'), ('read', 'm:p1')], user=True, user_after=1.0),
+    # a request made while the user shuts the client down: it is refused or served, but the client stays shut down
+    # (no reconnect, no worker thread left) - also for a client that reconnects by itself after a LOSS
+    'request_during_shutdown': dict(activate=True, callers=[('read', 'm:p1'), ('read', 'm:p2', 2.0), ('read', 'm:p1', 2.0)],
+                                    user=True, user_at=2.0),
+    'request_during_shutdown2': dict(callers=[('read', 'm:p1'), ('change', 'm:p2', 2.0)], user=True, user_at=2.0),
     'timeout_then_same': dict(callers=[('read', 'm:p1'), ('read', 'm:p1', 11.5)], ignore=[1]),
     # the answer to a request that timed out arrives late, while the next request with the same key is waiting behind it
     'late_reply_same': dict(callers=[('read', 'm:p1'), ('read', 'm:p1', 10.1)], late={1: 10.4}),
@@ -127,7 +132,11 @@ def alpha(r, sc):
         elif ev == 'connect_refused':
             tr.append({'ev': 'refused', 'vt': vt})
         elif ev == 'state':
-            tr.append({'ev': 'state', 'online': e['online'], 'state': e['state'], 'vt': vt})
+            # by: who makes the client change its state - a caller (a request re-opens a shut down client) or one of
+            # the client's own threads (after a shutdown they have nothing to announce any more)
+            th = str(e.get('th', ''))
+            tr.append({'ev': 'state', 'online': e['online'], 'state': e['state'], 'vt': vt,
+                       'by': 'caller' if th.startswith('c') and th[1:].isdigit() else 'user' if th == 'user' else 'worker'})
         elif ev == 'disc_call':
             tr.append({'ev': 'disc_call', 'who': e['who'], 'vt': vt})
         elif ev == 'disc_ret':
